@@ -154,6 +154,8 @@ type Actor struct {
 	done    bool
 	group   int
 	inline  bool // the goroutine is not ours (handler goroutine)
+	fuse    bool // runs its operations back to back (RPC.Fuse)
+	ranOne  bool
 }
 
 // Instance is the service implementation registered for the test service.
@@ -383,6 +385,11 @@ func (w *World) polling() bool {
 
 var stackBuf = make([]byte, 1<<20)
 
+// verifyQuiesce (VERIF_VERIFY_QUIESCE=1): cross-check every run-queue based quiescence verdict against a full scan of
+// goroutine states; QuiesceMismatch counts disagreements (development aid).
+var verifyQuiesce = os.Getenv("VERIF_VERIFY_QUIESCE") != ""
+var QuiesceMismatch atomic.Int64
+
 var runnableSample = []metrics.Sample{{Name: "/sched/goroutines/runnable:goroutines"}}
 
 // runnableGoroutines reports how many goroutines are ready to run but not
@@ -400,6 +407,12 @@ func (w *World) pollQuiescent() {
 		for iter := 0; iter < 2000000; iter++ {
 			runtime.Gosched()
 			if runnableGoroutines() == 0 {
+				if verifyQuiesce {
+					if quiet, _ := w.scanNow(); !quiet {
+						QuiesceMismatch.Add(1)
+						continue
+					}
+				}
 				return
 			}
 		}
@@ -1236,6 +1249,12 @@ func epoch() time.Time { return time.Date(2000, 1, 1, 0, 0, 0, 0, time.UTC) }
 
 func (w *World) newActor(name string, rpc int, side string) *Actor {
 	a := &Actor{name: name, rpc: rpc, side: side, cmd: make(chan *opSpec)}
+	if rpc >= 0 && rpc < len(w.c.RPCs) {
+		switch f := w.c.RPCs[rpc].Fuse; {
+		case f == "both", f == "h" && side == "handler", f == "c" && side == "caller":
+			a.fuse = true
+		}
+	}
 	w.mu.Lock()
 	a.id = len(w.actors)
 	w.actors = append(w.actors, a)
@@ -1272,10 +1291,12 @@ func (w *World) actorLoop(a *Actor) {
 				return
 			}
 		} else {
-			select {
-			case op = <-a.cmd:
-			case <-w.quit:
-				return
+			if op = w.pullFused(a); op == nil {
+				select {
+				case op = <-a.cmd:
+				case <-w.quit:
+					return
+				}
 			}
 			if op == nil {
 				return
@@ -1283,6 +1304,21 @@ func (w *World) actorLoop(a *Actor) {
 		}
 		w.runOp(a, op)
 	}
+}
+
+// pullFused: a fused actor (RPC.Fuse) that has just finished an operation takes its next one
+// at once, without waiting for the scheduler - as real application code does. Whatever the
+// library started asynchronously during the first operation now races with the second.
+func (w *World) pullFused(a *Actor) *opSpec {
+	if !a.fuse || !a.ranOne {
+		return nil
+	}
+	w.mu.Lock()
+	defer w.mu.Unlock()
+	if w.frozen || !w.actorEnabledLocked(a) || w.phase != "run" {
+		return nil
+	}
+	return w.pullOpLocked(a)
 }
 
 // pullOpLocked prepares the next op of a (w.mu held). Returns nil if the actor has finished.
@@ -1320,6 +1356,7 @@ func (w *World) runOp(a *Actor, op *opSpec) {
 	rec.End = w.step
 	rec.Phase = w.phase
 	a.busy = false
+	a.ranOne = true
 	w.mu.Unlock()
 }
 
@@ -1969,10 +2006,12 @@ func (w *World) handlerWait(a *Actor) {
 				}
 			}
 		} else {
-			select {
-			case op = <-a.cmd:
-			case <-w.quit:
-				return
+			if op = w.pullFused(a); op == nil {
+				select {
+				case op = <-a.cmd:
+				case <-w.quit:
+					return
+				}
 			}
 		}
 		if op == nil {
@@ -2433,6 +2472,7 @@ func (w *World) drain() {
 			continue
 		}
 		if len(acts) == 0 {
+			w.noteLiveActors()
 			return
 		}
 		// deliveries first (all of them), then one step of every enabled actor
@@ -2459,6 +2499,24 @@ func (w *World) drain() {
 	}
 	w.tr.Notes = append(w.tr.Notes, "drain did not converge")
 	w.tr.Aborted = "drain did not converge"
+}
+
+// noteLiveActors records, when a drain ends, which actors have not finished and why they were not enabled
+// (diagnostics for the rare case of a drain that ends early).
+func (w *World) noteLiveActors() {
+	w.mu.Lock()
+	defer w.mu.Unlock()
+	var live []string
+	for _, a := range w.actors {
+		if a.done {
+			continue
+		}
+		en := a.enabled == nil || a.enabled()
+		live = append(live, fmt.Sprintf("%s(busy=%v stalled=%v enabled=%v)", a.name, a.busy, a.stalled, en))
+	}
+	if len(live) > 0 {
+		w.tr.Notes = append(w.tr.Notes, fmt.Sprintf("drain ended at step %d in phase %s with live actors: %s", w.step, w.phase, strings.Join(live, " ")))
+	}
 }
 
 func (w *World) releaseStalled() {
